@@ -269,7 +269,7 @@ def run_case(ctx, mods, cap, cs, r):
     # framewise consistency
     ff = getattr(sep, fn + "_framewise")
     L = cs["L"]
-    window = r.choice([L // 2, L // 2 + 100, 2 * nsrc * 256 + 512])
+    window = r.choice([L // 2, L // 2 + 100, 2 * nsrc * 256 + 512, L, 2 * L])
     window = max(window, nsrc * 512 + 100)
     hop = r.choice([window // 2, window, window // 3])
     cperm = r.random() < 0.5
@@ -303,6 +303,23 @@ def run_case(ctx, mods, cap, cs, r):
                 ctx.violation("C19/separation.%s_framewise/uninitialised" % fn,
                               "uninitialised", "separation.%s_framewise" % fn,
                               "poison pattern in a framewise result", case)
+            if nwin < 2:
+                # fewer than two windows fit: one column holding the plain result
+                one = f(ref_f, est, cperm)
+                ctx.ev()
+                ctx.count("relation.framewise_single_window")
+                for a, b in zip(one, fw):
+                    a, b = np.asarray(a, dtype=float), np.asarray(b, dtype=float)
+                    if b.shape != (nsrc, 1) or not np.array_equal(a, b[:, 0],
+                                                                  equal_nan=True):
+                        ctx.violation("C19/separation.%s_framewise/single-window" % fn,
+                                      "single-window", "separation.%s_framewise" % fn,
+                                      "signal shorter than window + hop: expected one "
+                                      "column (%d, 1) equal to the plain call %s, got "
+                                      "shape %r %s" % (nsrc, short(a.tolist(), 80),
+                                                       b.shape, short(b.tolist(), 80)),
+                                      case)
+                        break
             if nwin >= 2:
                 for k in range(nwin):
                     sl = slice(k * hop, k * hop + window)
